@@ -45,6 +45,7 @@ import (
 	"os/exec"
 	"path/filepath"
 	"runtime"
+	"runtime/debug"
 	"sort"
 	"strconv"
 	"strings"
@@ -73,6 +74,7 @@ const (
 	c09EnvBlocks   = "VERIF_C09_BLOCKS"    // number of blocks the child adds
 	c09EnvReportAt = "VERIF_C09_REPORT_AT" // journal line count at which the child prints c09Reached
 	c09Reached     = "C09-REACHED"
+	c09Note        = "C09-NOTE generated block rejected by the generating ledger (class owned by C20):"
 	c09CpInterval  = 4
 )
 
@@ -191,13 +193,55 @@ func c09NewSim(t testing.TB, c *kit.Ctx, h int, onDisk bool) *hlSim {
 	return hlNewSim(t, c, r, cfg)
 }
 
+// reference template per history: universe, genesis accounts and hash are a function of (seed, h)
+var (
+	c09TmplMu sync.Mutex
+	c09Tmpl   = map[int]*hlSim{}
+)
+
+// c09NewRef opens a fresh in-memory reference ledger of history h on the CHILD's genesis block
+// (same accounts and genesis hash by the same PRNG draws; the block itself carries the child's
+// creation time) with an empty model.
+func c09NewRef(t testing.TB, c *kit.Ctx, h int, genesisBlock bookkeeping.Block) *hlSim {
+	c09TmplMu.Lock()
+	tm := c09Tmpl[h]
+	if tm == nil {
+		tm = c09NewSim(t, c, h, false)
+		tm.close()
+		c09Tmpl[h] = tm
+	}
+	c09TmplMu.Unlock()
+	s := &hlSim{t: t, c: c, r: c.Rand(9, uint64(h), 6000), cfg: tm.cfg, lcfg: tm.lcfg, log: tm.log, u: tm.u, stats: map[string]int{}}
+	s.genesis = ledgercore.InitState{Block: genesisBlock, Accounts: tm.genesis.Accounts, GenesisHash: tm.genesis.GenesisHash}
+	c09SimMu.Lock()
+	s.dir = c.Scratch("ref")
+	c09SimMu.Unlock()
+	s.dbName = filepath.Join(s.dir, "ledger")
+	s.open()
+	s.m = hlNewModel()
+	s.m.initGenesis(genesisBlock.BlockHeader, s.genesis.Accounts)
+	s.g = hlNewGen(s)
+	return s
+}
+
+// c09StepError says where producing a block failed. Stage "validate" (the ledger's own validation
+// rejects the block its generating evaluator produced) is C20's class, not a recovery matter, unless
+// the reference ledger disagrees.
+type c09StepError struct {
+	stage string // start | generate | validate | add
+	blk   bookkeeping.Block
+	err   error
+}
+
+func (e *c09StepError) Error() string { return e.stage + ": " + e.err.Error() }
+
 // c09Step generates and adds one block exactly like hlSim.step/finishBlock, calling beforeAdd
 // between validation and the hand-over to the ledger.
 func c09Step(s *hlSim, beforeAdd func(blk bookkeeping.Block)) error {
 	s.lastBlockGroups = s.lastBlockGroups[:0]
 	ev, err := s.startEval()
 	if err != nil {
-		return fmt.Errorf("StartEvaluator: %w", err)
+		return &c09StepError{stage: "start", err: fmt.Errorf("StartEvaluator: %w", err)}
 	}
 	n := s.g.groupsPerBlock()
 	for i := 0; i < n; i++ {
@@ -211,7 +255,7 @@ func c09Step(s *hlSim, beforeAdd func(blk bookkeeping.Block)) error {
 	}
 	ub, err := ev.GenerateBlock(participating)
 	if err != nil {
-		return fmt.Errorf("GenerateBlock: %w", err)
+		return &c09StepError{stage: "generate", err: fmt.Errorf("GenerateBlock: %w", err)}
 	}
 	blk := ub.UnfinishedBlock()
 	var seed committee.Seed
@@ -223,12 +267,15 @@ func c09Step(s *hlSim, beforeAdd func(blk bookkeeping.Block)) error {
 	}
 	vb, err := s.validateNoSig(blk)
 	if err != nil {
-		return fmt.Errorf("Validate of generated block: %w", err)
+		return &c09StepError{stage: "validate", blk: blk, err: fmt.Errorf("Validate of generated block: %w", err)}
 	}
 	if beforeAdd != nil {
 		beforeAdd(vb.Block())
 	}
-	return s.addValidated(vb)
+	if err := s.addValidated(vb); err != nil {
+		return &c09StepError{stage: "add", blk: blk, err: err}
+	}
+	return nil
 }
 
 // c09ForceCommit forces a tracker commit of everything eligible THROUGH THE PRODUCTION PATH
@@ -328,9 +375,19 @@ func TestVerifC09Child(t *testing.T) {
 		}
 	}
 	for b := 0; b < blocks; b++ {
-		err := c09Step(s, func(blk bookkeeping.Block) {
-			j.write(c, c09Line{K: "add", R: uint64(blk.Round()), H: blk.Hash().String(), B: protocol.Encode(&blk)})
-		})
+		var err error
+		for try := 0; try < 6; try++ {
+			err = c09Step(s, func(blk bookkeeping.Block) {
+				j.write(c, c09Line{K: "add", R: uint64(blk.Round()), H: blk.Hash().String(), B: protocol.Encode(&blk)})
+			})
+			var se *c09StepError
+			if err != nil && errors.As(err, &se) && se.stage == "validate" {
+				// nothing was handed to the ledger; the class (a generated block failing validation) is C20's
+				fmt.Printf("%s round %d: %v\n", c09Note, s.l.Latest()+1, err)
+				continue
+			}
+			break
+		}
 		if err != nil {
 			c.Harness("child cannot produce block: %v", err)
 		}
@@ -417,15 +474,15 @@ func c09RunChild(cs c09Case, base string) c09Run {
 	if self == "" {
 		self = os.Args[0]
 	}
-	cmd := exec.Command(self, "-test.run=^TestVerifC09Child$", "-test.v", "-test.count=1", "-test.timeout=600s")
+	cmd := exec.Command(self, "-test.run=^TestVerifC09Child$", "-test.v", "-test.count=1", "-test.timeout=1200s")
 	var env []string
 	for _, e := range os.Environ() {
-		if strings.HasPrefix(e, "VERIF_HOOKS=") || strings.HasPrefix(e, "VERIF_SCRATCH=") || strings.HasPrefix(e, "VERIF_OUT=") || strings.HasPrefix(e, "VERIF_C09_") {
+		if strings.HasPrefix(e, "GOGC=") || strings.HasPrefix(e, "VERIF_HOOKS=") || strings.HasPrefix(e, "VERIF_SCRATCH=") || strings.HasPrefix(e, "VERIF_OUT=") || strings.HasPrefix(e, "VERIF_C09_") {
 			continue
 		}
 		env = append(env, e)
 	}
-	env = append(env, c09EnvChild+"=1", c09EnvHist+"="+strconv.Itoa(cs.hist), c09EnvDir+"="+dir,
+	env = append(env, "GOGC=400", c09EnvChild+"=1", c09EnvHist+"="+strconv.Itoa(cs.hist), c09EnvDir+"="+dir,
 		c09EnvBlocks+"="+strconv.Itoa(cs.blocks), "VERIF_SCRATCH="+dir, "VERIF_OUT="+dir)
 	if cs.point == "sigkill" {
 		env = append(env, c09EnvReportAt+"="+strconv.Itoa(cs.killAt))
@@ -450,7 +507,7 @@ func c09RunChild(cs c09Case, base string) c09Run {
 	pw.Close()
 	var mu sync.Mutex
 	killed, watchdog := false, false
-	wd := time.AfterFunc(300*time.Second, func() { // watchdog only: never a verdict
+	wd := time.AfterFunc(900*time.Second, func() { // watchdog only: never a verdict
 		mu.Lock()
 		watchdog = true
 		mu.Unlock()
@@ -845,6 +902,12 @@ func c08AssetStrC09(r ledgercore.AssetResource) string {
 	return s
 }
 
+func cfgString(c *kit.Ctx, h int) string {
+	cfg := c09Config(c.Rand(9, uint64(h)), h)
+	cfg.OnDisk = true
+	return cfg.String()
+}
+
 func c09LabelRound(label string) (uint64, bool) {
 	i := strings.IndexByte(label, '#')
 	if i <= 0 {
@@ -876,6 +939,14 @@ func c09Judge1(t testing.TB, c *kit.Ctx, cs c09Case, run c09Run) (hits map[strin
 	if strings.Contains(run.output, "VIOLATION property=") {
 		// the child's in-process monitors (reload / clean reopen) fired; the details are in its replay file
 		c.Violation("child-reported-violation", map[string]any{"case": cs.String(), "child_output": tail(run.output, 3000)})
+	}
+	if i := strings.Index(run.output, c09Note); i >= 0 {
+		ln := run.output[i:]
+		if k := strings.IndexByte(ln, '\n'); k > 0 {
+			ln = ln[:k]
+		}
+		c.Count("anomaly_owned_by_C20.generated_block_rejected", 1)
+		c.Observation("anomaly owned by C20 (history %d, %s): %s", cs.hist, cfgString(c, cs.hist), ln)
 	}
 	switch run.how {
 	case "watchdog":
@@ -984,15 +1055,8 @@ func c09Judge1(t testing.TB, c *kit.Ctx, cs c09Case, run c09Run) (hits map[strin
 		os.RemoveAll(run.dir)
 	}()
 
-	ref := c09NewSim(t, c, cs.hist, false)
+	ref := c09NewRef(t, c, cs.hist, genesisBlock)
 	defer ref.close()
-	// same accounts and genesis hash (same PRNG draws); adopt the child's genesis block (creation time)
-	ref.l.Close()
-	ref.genesis.Block = genesisBlock
-	ref.dbName += "-ref"
-	ref.open()
-	ref.m = hlNewModel()
-	ref.m.initGenesis(genesisBlock.BlockHeader, ref.genesis.Accounts)
 	cfgR := c.Rand(9, uint64(cs.hist))
 	cfg := c09Config(cfgR, cs.hist)
 	cfg.OnDisk = true
@@ -1176,8 +1240,23 @@ func c09Judge1(t testing.TB, c *kit.Ctx, cs c09Case, run c09Run) (hits map[strin
 		}
 	})
 	more := 3 + cont.r.Intn(4)
-	for i := 0; i < more && jd.viol == 0; i++ {
-		if err := c09Step(cont, nil); err != nil {
+	for i, tries := 0, 0; i < more && jd.viol == 0; i++ {
+		err := c09Step(cont, nil)
+		var se *c09StepError
+		if err != nil && errors.As(err, &se) && se.stage == "validate" && tries < 6 {
+			// the recovered ledger rejects the block it generated itself: a recovery matter only if a
+			// ledger that never crashed judges the same block differently
+			if _, rerr := ref.validateNoSig(se.blk); rerr != nil {
+				tries++
+				i--
+				c.Count("anomaly_owned_by_C20.generated_block_rejected", 1)
+				c.Observation("anomaly owned by C20 (%s): recovered and reference ledger both reject a generated block: %v / %v", cs, err, rerr)
+				continue
+			}
+			jd.violation("evaluation-differs-after-recovery", map[string]any{"what": "the recovered ledger rejects a block it generated, the reference ledger accepts it", "round": l.Latest() + 1, "error": err.Error()})
+			return hits, jlines, nil
+		}
+		if err != nil {
 			jd.violation("cannot-extend-after-recovery", map[string]any{"what": "the recovered ledger does not accept the next block", "round": l.Latest() + 1, "error": err.Error()})
 			return hits, jlines, nil
 		}
@@ -1252,6 +1331,8 @@ func TestVerifC09(t *testing.T) {
 	c.Assume("the reference is the real evaluator run on a fresh in-memory ledger over the journaled blocks plus the HL per-round model (evaluation itself is checked by C18-C24)")
 	hlRegisterProtos()
 	hlPrograms()
+	// every ledger preallocates several hundred MB of caches; collect less often (no effect on verdicts)
+	defer debug.SetGCPercent(debug.SetGCPercent(400))
 	nHist := c.N(2, 10)
 	hitsPer := c.N(2, 8)
 	nKill := c.N(14, 300)
